@@ -313,6 +313,19 @@ class Interp:
                 elif k == "discr":
                     x = self._place(env, heap, rv["o"][0])
                     v = self._discr(x)
+                    if v is UNK:
+                        # `match opt { Some(..) / None }` on an unknown option: its presence is chosen once per path (shared with the Option combinators)
+                        sx = strip_refs(x) if x and x[0] == "ref" else x
+                        pl = rv["o"][0]
+                        ty = (fn["locals"][pl["l"]] if pl["l"] < len(fn["locals"]) else "") if all(e == "*" for e in pl["p"]) else ""
+                        ty = ty.lstrip("&").replace("mut ", "", 1).strip()
+                        if sx and sx[0] == "sym" and ty.startswith("core::option::Option<"):
+                            key = ("optional", sx[1])
+                            if key not in heap:
+                                c = self._choose(2, f"opt:{sx[1]}")
+                                heap[key] = ("bool", bool(c))
+                                self._assump.append(("optional", sx[1], bool(c)))
+                            v = ("int", 1 if heap[key][1] else 0)
                 elif k == "agg":
                     v = self._agg(rv, [self._operand(env, heap, o, proms) for o in rv["o"]])
                 elif k == "bin":
@@ -556,7 +569,7 @@ class Interp:
                 c = self._choose(2, f"opt:{inner[1]}")
                 heap[key] = ("bool", bool(c))
                 self._assump.append(("optional", inner[1], bool(c)))
-            present, payload = heap[key][1], sym(inner[1] + ".Some")
+            present, payload = heap[key][1], sym(inner[1] + ".Some::0")       # same name as the MIR projection `(x as Some).0` (field `Some::0`)
         else:
             return _NOHOF
         if last in ("unwrap_or_else",):
